@@ -55,7 +55,7 @@ def _samecert(ctx, cfg, prog, lv, cands):
     if not users:
         return
     B, detail = gate.certified_set(prog, lv, G, cands)
-    ctx.floor('construction bodies that reject candidates on the brute-force verifier', 2, len(users), cfg)
+    ctx.floor('construction bodies that reject candidates on the brute-force verifier', 1, len(users), cfg)
     for q in users:
         b = prog.bodies[q]
         ctx.ob('SAMECERT', '%s|member' % (b.root or q), cfg, q in B,
